@@ -47,7 +47,10 @@ def run(ctx):
         rule="a trace is one (node width, node placement, epoch) combination; ids = boundary timestamps (0, "
              "2^k, width limit, calendar boundaries in Asia/Shanghai, the 2262 int64-nanosecond boundary) x "
              "boundary low bits, raw random ids; pairs = sorted neighbours, one-field changes, bit flips; "
-             "intervals = boundary/random begins with 0..400 days length, sub-second parts, four zones",
+             "intervals = boundary/random begins with 0..400 days length, sub-second parts, time arguments in 7 fixed "
+             "zones (incl. +05:45, -03:30, +00:00:01) and 8 daylight-saving locations (embedded tzdata) with "
+             "endpoints in and around every transition found by bisection: both occurrences of the repeated "
+             "wall-clock span, the skipped span, +-1 s, mixed zones for begin and end",
         explanation="IDFields/IDParse/IDParseEx triples must recombine to the id; ids order as (timestamp, "
                     "remaining bits); FromChStyle(CnStyle(id)) = id with 24 digits; TimeIDRange/TimeBetweenID "
                     "must contain every id of the truncated interval and none before its first / after its "
